@@ -142,6 +142,8 @@ class ExternalAddress:
         builder = Builder().store_bits('01').store_uint(self.len, 9)
         if self.len:
             builder.store_uint(self.external_address, self.len)
+        elif self.external_address:
+            raise OverflowError(f'external address {self.external_address} does not fit into 0 bits')
         return builder.end_cell()
 
     def __repr__(self):
